@@ -26,6 +26,7 @@ Inductive expr :=
 | XVar (x : str)
 | XThis
 | XAssign (x : str) (e : expr)
+| XOpAssign (op : binop) (x : str) (e : expr)     (* x op= e : 11.13.2, GetValue(x) first *)
 | XGet (o : expr) (p : str)
 | XSet (o : expr) (p : str) (e : expr)
 | XIdx (o : expr) (i : expr)                 (* o[i] *)
@@ -461,6 +462,16 @@ Definition step (t : task) (s : state) : R :=
                 end
     | XThis => okv s (c_this c)
     | XAssign x e1 => bindv (self (TExpr c e1) s) (fun s1 v => okv (assign_var chain_fuel s1 (c_env c) x v) v)
+    | XOpAssign op x e1 =>
+        match lookup_var chain_fuel s (c_env c) x with
+        | None => Exn s (WErr 2)
+        | Some old =>
+            bindv (self (TExpr c e1) s) (fun s1 v =>
+              match binval op old v with
+              | Some nv => okv (assign_var chain_fuel s1 (c_env c) x nv) nv
+              | None => Decline
+              end)
+        end
     | XGet o p =>
         bindv (self (TExpr c o) s) (fun s1 vo =>
           match vo with
